@@ -101,21 +101,24 @@ func TestWorker(t *testing.T) {
 		}
 		scs = f
 	}
+	light := 0
 	for i, sc := range scs {
 		if sc.Prop == "" {
 			sc.Prop = id
 		}
-		if byScenario {
-			if i%of != shard {
-				continue
-			}
-			e.Explore(sc, false)
-		} else {
+		switch {
+		case sc.Heavy || !byScenario:
 			e.Explore(sc, true)
+		case light%of == shard:
+			light++
+			e.Explore(sc, false)
+		default:
+			light++
 		}
 		if e.expired() {
-			for _, r := range scs[i+1:] {
-				if !byScenario || indexOf(scs, r)%of == shard {
+			if shard == 0 {
+				// scenarios not reached are reported once
+				for _, r := range scs[i+1:] {
 					e.St.Scenarios++
 					e.St.Incomplete = append(e.St.Incomplete, r.Name)
 				}
